@@ -44,17 +44,13 @@ impl Buffer {
         let pen = pen.unwrap_or(&default_pen);
         let mut lines = vec![Line::blank(cols, *pen); rows];
 
-        if let Some(limit) = scrollback_limit {
-            if limit > 0 {
-                lines.reserve(limit);
-            }
-        } else {
-            lines.reserve(1000);
-        }
+        // pre-allocate room for some scrollback, but never more than 1000
+        // lines up front - the limit may be arbitrarily large
+        lines.reserve(scrollback_limit.unwrap_or(1000).min(1000));
 
         let scrollback_limit = scrollback_limit.map(|l| ScrollbackLimit {
             soft: l,
-            hard: l + l / 10, // 10% bigger than soft
+            hard: l.saturating_add(l / 10), // 10% bigger than soft
         });
 
         Buffer {
